@@ -4,6 +4,7 @@ import (
 	"encoding/hex"
 	"encoding/json"
 	"github.com/brutella/hc/util"
+	"strings"
 )
 
 // Database stores entities
@@ -93,7 +94,22 @@ func (db *database) entityForKey(key string) (e Entity, err error) {
 		err = json.Unmarshal(b, &e)
 	}
 
+	// The key holds the exact name. The name inside the JSON document is
+	// altered by the encoder when it is not valid UTF-8.
+	if name, ok := fromEntityKey(key); ok && err == nil {
+		e.Name = name
+	}
+
 	return
+}
+
+func fromEntityKey(key string) (string, bool) {
+	if !strings.HasSuffix(key, ".entity") {
+		return "", false
+	}
+
+	b, err := hex.DecodeString(strings.TrimSuffix(key, ".entity"))
+	return string(b), err == nil
 }
 
 func toEntityKey(s string) string {
